@@ -24,7 +24,8 @@ RULE = ("document-order sequences of 0-12 dependencies over 1-4 names and versio
 ASSUMPTIONS = ["reference version order: dot-separated integers, trailing zeros insignificant"]
 SHARDS = {"quick": 1, "thorough": 16}
 
-VERSIONS = ["1", "1.0", "1.9", "1.10", "1.10.0", "2", "0.9.9", "10.0", "1.2.3.4"]
+VERSIONS = ["1", "1.0", "1.9", "1.10", "1.10.0", "2", "0.9.9", "10.0", "1.2.3.4", "1.2.3.4.5.6", "1.2.3.4.5.10", "1.100000000000000000000", "1.99999999999999999999",
+            "0.0.0.0.0.1", "2024.10.3"]
 NAMES = ["alpha", "beta", "gamma", "delta"]
 CASE_NAMES = ["alpha", "Alpha", "ALPHA", "stra\u00dfe", "strasse", "STRASSE", "made-as-alpha"]   # distinct names: nothing folds them together
 
@@ -395,6 +396,8 @@ def _run(ctx):
     ctx.exhaustive["all_orders_of_listed_multisets"] = True
     ctx.sample({"sequence": multisets[0], "resolved": [(d.name, str(d.version)) for d in ht.TagList(*mk(multisets[0])).get_dependencies()]})
     for _ in range(ctx.budget(1500, 1000000)):
-        seq = rand_seq(rng, rng.choice([0, 1, 2, 3, 4, 5, 7, 9, 12]))
+        seq = rand_seq(rng, rng.choice([0, 1, 2, 3, 4, 5, 7, 9, 12] * 6 + [55, 130]))
+        if len(seq) > 50:
+            ctx.count("sequences_of_more_than_50_dependencies")
         check_seq(ctx, seq, share=rng.random() < 0.3)
         ctx.case(seq, nontrivial=nontrivial(seq))
